@@ -9,7 +9,7 @@ CONE = ['lemma:C20:bin1d_vec is an elementwise function of the points',
         'lemma:C20:spatial_magnitude_counts under a permutation of the events',
         'csep.core.regions.CartesianGrid2D.get_index_of',
         'csep.core.poisson_evaluations._w_test_ndarray']
-ORACLE_MODULES = ['rt.oracles_catfc', 'rt.oracles_eval', 'rt.oracles_contracts']
+ORACLE_MODULES = ['rt.oracles_catfc', 'rt.oracles_eval', 'rt.oracles_contracts', 'rt.oracles_grid']
 BOUNDED = os.path.exists(os.path.join(os.path.dirname(__file__), '..', 'rt', 'bounded_C20.py'))
 FLOAT_MODEL = 'R (floats as reals): the relational lemmas compare two runs of the same real body, so rounding enters both runs identically'
 TRUSTED = ['numpy.add.at / fancy indexing / mask selection models', 'the oracles in rt/ compute the expected outcome from the property statement, independently of the code under test', 'pyvc engine, z3 5.1']
